@@ -11,7 +11,7 @@
    configuration of s' equal those of s; not_full is the old flag or the value recomputed for the
    same selection (they coincide when [nf_consistent e s]). *)
 From Coq Require Import ZArith List Bool.
-From TFV Require Import State.Overrides State.Overrides_proofs.
+From TFV Require Import State.Overrides State.Overrides_proofs State.TraceCache State.TraceCache_proofs.
 Import ListNotations.
 Open Scope Z_scope.
 
@@ -47,7 +47,8 @@ Proof. exact run_restores_exact. Qed.
 Print Assumptions C17_nested_blocks_restore_exact.
 
 (* readonly_helpers_restore: partial_weight (both variants), partial_weight_interference,
-   cal_fitfractions(_no_grad), FitFractions.append_int - from ANY state, exception at ANY
+   cal_fitfractions(_no_grad), FitFractions.append_int, and the density evaluation of the
+   cached_shape amplitude model (which narrows the selection itself) - from ANY state, exception at ANY
    evaluation of the loop (ev arbitrary): no side condition at all. *)
 Theorem C17_readonly_helpers_restore :
   forall e ev h w s, restored e s (st_of (snd (run_helper e ev h w s))).
@@ -87,7 +88,66 @@ Theorem C17_mask_params_any_body :
 Proof. exact mask_params_any_body. Qed.
 Print Assumptions C17_mask_params_any_body.
 
+(* a temp_params manager whose assignment of the new values raises half-way (unusable value, too
+   short list): the values assigned so far are taken back, the exception reaches the caller.
+   (Both are instances of C17_nested_blocks_restore: the two shapes are block kinds of [run].) *)
+Theorem C17_failing_assignment_restores :
+  forall e ev p body w s, good s ->
+    restored e s (st_of (snd (run e ev (PWith (BTempParamsBad p) body) w s))) /\
+    is_exn (snd (run e ev (PWith (BTempParamsBad p) body) w s)) = true.
+Proof. exact temp_params_bad_ok. Qed.
+Print Assumptions C17_failing_assignment_restores.
+Theorem C17_failing_assignment_restores_vm :
+  forall e ev p rest body w s, good s ->
+    restored e s (st_of (snd (run e ev (PWith (BVmTempParamsBad p rest) body) w s))) /\
+    is_exn (snd (run e ev (PWith (BVmTempParamsBad p rest) body) w s)) = true.
+Proof. exact vm_temp_params_bad_ok. Qed.
+Print Assumptions C17_failing_assignment_restores_vm.
+
+(* "... so the density of any event is unchanged", for the CACHED evaluation path
+   (use_tf_function: True; State/TraceCache.v): in every session - the model evaluated in ANY
+   states one after the other, e.g. inside and after override blocks - each cached evaluation
+   returns the density of the state it is made in (same parameters, mask, flags, configuration;
+   the chain selection equal or both complete).  Side conditions: not_full agrees with the
+   selection, the number of mask_factor flags is fixed. *)
+Theorem C17_cached_path_exact :
+  forall e n l,
+    List.Forall (fun s => nf_consistent e s /\ length (mflags s) = n) l ->
+    List.Forall2 (same_model e) (calls cav None l) l.
+Proof. intros e n l H. exact (calls_exact e n l None H (tinv_none e n)). Qed.
+Print Assumptions C17_cached_path_exact.
+
 (* ---- why the repairs matter: the pre-fix control flow (separate "old" model) ---- *)
+(* finding C17-1: cached_available() tested only not_full *)
+Theorem C17_old_cached_path_refuted :
+  exists e n l, List.Forall (fun s => nf_consistent e s /\ length (mflags s) = n) l /\
+                ~ List.Forall2 (same_model e) (calls cav_old None l) l.
+Proof. exact calls_old_refuted. Qed.
+Print Assumptions C17_old_cached_path_refuted.
+Example C17_old_cached_path_keeps_mask :
+  map maskv (calls cav_old None [upd_mask [(0, (3, 4))] ex_state; ex_state]) = [[(0, (3, 4))]; [(0, (3, 4))]].
+Proof. exact calls_old_keeps_mask. Qed.
+Example C17_old_cached_path_keeps_flags :
+  map mflags (calls cav_old None [upd_flags [true; true] ex_state; ex_state]) = [[true; true]; [true; true]].
+Proof. exact calls_old_keeps_flags. Qed.
+(* finding C17-2: the temp_params managers assigned before the try *)
+Theorem C17_old_failing_assignment_leaks :
+  forall p s, set_all p (vars s) <> vars s ->
+    vars (st_of (snd (old_temp_params_bad p (O, []) s))) <> vars s.
+Proof. exact old_temp_params_bad_leaks. Qed.
+Print Assumptions C17_old_failing_assignment_leaks.
+Example C17_old_failing_assignment_example :
+  vars (st_of (snd (old_temp_params_bad [(1, (5, 8))] (O, []) ex_state))) = [(0, (1, 2)); (1, (5, 8)); (3, (1, 1))].
+Proof. exact old_temp_params_bad_example. Qed.
+(* finding C17-3: CachedShapeAmplitudeModel.pdf restored the selection without try/finally *)
+Theorem C17_old_cached_shape_pdf_exn_leaks :
+  cidx (st_of (snd (old_cached_shape_pdf ex_env (fun n _ => Nat.eqb n 0) [1; 2] (O, []) ex_state))) = [0].
+Proof. exact old_cached_shape_pdf_exn_leaks. Qed.
+Print Assumptions C17_old_cached_shape_pdf_exn_leaks.
+Example C17_cached_shape_pdf_exn_ok :
+  st_of (snd (run_helper ex_env (fun n _ => Nat.eqb n 0) (HCachedShapePdf [1; 2]) (O, []) ex_state)) = ex_state.
+Proof. exact cached_shape_pdf_exn_ok. Qed.
+
 Theorem C17_old_control_flow_leaks :
   forall e b s s1 sv, blk_enter e b s = Some (s1, sv) -> s1 <> s ->
     st_of (snd (old_block e b raise_now (O, []) s)) <> s.
